@@ -126,19 +126,47 @@ def dispersion(ctx):
         c, wl = float(utils.celerity(np.array([f]))[0]), float(utils.wavelen(np.array([f]))[0])
         if not L.close(c, 1.56 / f, rel=1e-12) or not L.close(wl, 1.56 / f ** 2, rel=1e-12):
             ctx.violation({"op": "deepwater", "f": f}, "deep-water celerity/wavelength are not 1.56/f, 1.56/f^2", {"c": c, "L": wl})
-        for depth in (0.5, 2.0, 10.0, 50.0, 500.0, 5000.0):
+        w2 = (2 * math.pi * f) ** 2
+        # fixed depths, and depths placed at given values of k0 h = w^2 h / g across the intermediate range - among them just above
+        # pi, where water counts as "deep" by the half-wavelength rule although tanh(kh) is still 0.996
+        for depth in (0.5, 2.0, 10.0, 50.0, 500.0, 5000.0) + tuple(x * g / w2 for x in (0.4, 0.8, 1.5, 2.5, 3.2, 3.5, 3.8, 6.0)):
             k = float(utils.wavenuma(np.array([f]), depth)[0])
-            w2 = (2 * math.pi * f) ** 2
             res = abs(w2 - g * k * math.tanh(k * depth)) / w2
+            kex = w2 / g                                   # the root of w^2 = g k tanh(k d) by Newton's iteration
+            for _ in range(60):
+                t = math.tanh(kex * depth)
+                kex -= (g * kex * t - w2) / (g * t + g * kex * depth * (1 - t * t))
+            if abs(k - kex) > 1.0e-3 * kex:
+                res = max(res, 1.0)
             c2 = float(utils.celerity(np.array([f]), depth)[0])
             l2 = float(utils.wavelen(np.array([f]), depth)[0])
             n += 1
-            ctx.case(("disp", F, depth), True)
+            ctx.case(("disp", F, round(depth, 6)), True)
             if res > 2.5e-3 or not L.close(c2, 2 * math.pi * f / k, rel=1e-9) or not L.close(l2, 2 * math.pi / k, rel=1e-9):
                 ctx.violation({"op": "dispersion", "f": f, "depth": depth}, "finite-depth wavenumber off the dispersion relation",
                               {"residual": res, "k": k})
             else:
                 ctx.replayed()
+    # the same on whole frequency grids (one call for all frequencies), the lowest frequency sitting just inside "deep" water
+    fr = np.arange(1, 13) / 20.0
+    for x in (0.5, 2.0, 3.2, 3.6, 5.0):
+        depth = x * g / (2 * math.pi * fr[0]) ** 2
+        ks = np.asarray(utils.wavenuma(fr, depth), float)
+        cs, ls = np.asarray(utils.celerity(fr, depth), float), np.asarray(utils.wavelen(fr, depth), float)
+        ctx.case(("disp-grid", x), True)
+        worst = 0.0
+        for f, k, c_, l_ in zip(fr, ks, cs, ls):
+            w2 = (2 * math.pi * f) ** 2
+            kex = w2 / g
+            for _ in range(60):
+                t = math.tanh(kex * depth)
+                kex -= (g * kex * t - w2) / (g * t + g * kex * depth * (1 - t * t))
+            worst = max(worst, abs(k - kex) / kex, abs(c_ - 2 * math.pi * f / kex) / (2 * math.pi * f / kex), abs(l_ - 2 * math.pi / kex) / (2 * math.pi / kex))
+        if worst > 1.0e-3:
+            ctx.violation({"op": "dispersion", "grid": True, "k0h_min": x}, "wavenumber / celerity / wavelength of a whole frequency grid are %.3g off the dispersion relation "
+                          "(0.1 %% allowed)" % worst, {"depth": depth})
+        else:
+            ctx.replayed()
     ctx.note("dispersion_cases", n)
 
 
